@@ -149,6 +149,22 @@ def run(ctx):
     for root in disp_roots:
         _check_dispatcher(ctx, prog, root)
     _check_tables(ctx, prog)
+    # H5: segmentation of the SOCKS5 requests — the completeness guard of the command-request decoder is the length predictor; it must
+    # agree with what the address decoder consumes (C14 E3, shared verdict), and the two request decoders must keep C04's need-more
+    # discipline (R4a / R4f, shared verdicts)
+    from .common import import_length_predictor_agreement
+    import_length_predictor_agreement(ctx, "H5")
+    from ..engine import Ctx
+    from . import c04
+    sub = Ctx(prog, "C04", ctx.tier)
+    c04.run(sub)
+    n = 0
+    for o in sub.obs:
+        if o.rule in ("R4a", "R4b", "R4f") and ("InitialRequestDecoder" in o.key or "CommandRequestDecoder" in o.key) and o.verdict != "reviewed-safe":
+            parts = o.key.split("|")
+            n += 1
+            ctx.ob("H5", parts[1], f"{o.rule}:{parts[2]}", o.where, o.ok, o.detail)
+    ctx.floor("H5", "need-more obligations of the two SOCKS5 request decoders (imported from C04)", 4, n)
 
 
 def _family_calls(prog, root):
